@@ -173,6 +173,11 @@ def run(tier, seed):
         "refines Gfa" if ok1 else "FAILS", st1[1], "violates %s as expected" % inv if not ok2 else "NOT detected"))
     if not ok1 or ok2:
         bad += 1
+    ok3, st3, inv3 = core.mc_impl(5, True, "self-impl-merge", repoint=False)
+    print("selftest GfaImpl: merged group definition without re-pointing %s" % (
+        "violates %s as expected" % inv3 if not ok3 else "NOT detected"))
+    if ok3:
+        bad += 1
     for f in sorted(glob.glob(os.path.join(os.path.dirname(__file__), "fam_*.py"))):
         m = importlib.import_module("harness." + os.path.basename(f)[:-3])
         if hasattr(m, "selftest"):
